@@ -209,13 +209,22 @@ CLAIMED = {
         tech="Rocq proof (invariant over all interleavings of the cache protocol) + cache-content correspondence + race detector",
         ref="DESIGN.md 5/C15"),
     "C16": dict(
-        text="Coq theorems over the model of ParamValidator / HeaderValidator / itemsValidator: nil is not validated, every other value "
-             "is; the first-error exit of the six-validator chain is sound (the verdict is the conjunction of all applicable groups). "
+        text="Coq: model of ParamValidator / HeaderValidator / itemsValidator and a declarative reading of the Swagger simple schema "
+             "(at every level the draft-4 semantics of its keywords, the declared numeric type and format bounding the value, the "
+             "required-and-empty rule); proved: the agreement theorem - the validators' verdict is the reading's verdict, for the "
+             "parameter / header and for the items validator at every depth, on a decidable class (no x-nullable, JSON enum values, "
+             "compiling pattern, bounds and factor inside the declared type and format, level formats known together with the "
+             "parameter's, format next to a numeric type or a value that is not a string/array of another type; decoded JSON values), "
+             "for every oracle and numeric implementation with a total order and symmetric equality, instantiated for Flocq binary64; "
+             "the decision procedure is proved sound and evaluated on every case (about 40% of the quick run inside; typed Go carriers "
+             "are outside); nil is not validated, every other value is; the first-error exit of the six-validator chain is sound. "
              "Tie: result projection (verdict, (code,name) set, MatchCount, error count) on typed Go values built by reflection, plain "
-             "and recycling; failing-input search against an exact simple-schema oracle with recorded finding classes.",
-        note=TB + "No axioms. The group-by-group equivalence with the declarative simple-schema semantics is checked by the oracle, not yet proved.",
-        tech="Rocq proof (chain soundness, nil handling) + typed-value correspondence + exact oracle",
-        ref="DESIGN.md 5/C16"),
+             "and recycling; inside the class Go's verdict must equal the reading's; outside, failing-input search against an exact "
+             "simple-schema oracle with recorded finding classes.",
+        note=TB + "The agreement theorems are axiom-free; the binary64 instance inherits the stdlib real-number axioms, classic and functional extensionality through Flocq. "
+             "Outside the class (typed carriers, x-nullable, the recorded finding classes) the verdict is judged per case by the exact oracle (partial).",
+        tech="Rocq proof (agreement with the declarative reading on a decidable class, chain soundness, nil handling) + typed-value correspondence + exact oracle",
+        ref="DESIGN.md 12/C16"),
     "C18": dict(
         text="Coq theorems over the model of post.ApplyDefaults on the schemata bookkeeping of a result: a member is added exactly when it "
              "is absent and a schema recorded for (object, member) declares a default, the value is the first such default, it is added "
